@@ -357,6 +357,7 @@ func writeCorpus() {
 		"chooser1.basm":  "%meta bmdef global registersize:8\n%section sa .romtext iomode:async\n\tentry _start\n_start:\n\trsets6 r0, 3\n\tr2o r0, o0\n\tj _start\n%endsection\n%section sb .romtext iomode:async\n\tentry _start\n_start:\n\tmov r1, 5\n\tmov r0, r1\n\tr2o r0, o0\n\tj _start\n%endsection\n%meta cpdef cpa romcode:sa\n%meta cpdef cpb romcode:sb\n%meta ioatt oa cp:cpa, type:output, index:0\n%meta ioatt oa cp:bm, type:output, index:0\n%meta ioatt ob cp:cpb, type:output, index:0\n%meta ioatt ob cp:bm, type:output, index:1\n",
 		"chooser2.basm":  "%meta bmdef global registersize:8\n%section sa .romtext iomode:async\n\tentry _start\n_start:\n\trsets6 r0, 3\n\tr2o r0, o0\n\tj _start\n%endsection\n%section sb .romtext iomode:async\n\tentry _start\n_start:\n\trset r2, 200\n\tmov r1, 5\n\tmov r0, r1\n\tr2o r0, o0\n\tj _start\n%endsection\n%meta cpdef cpa romcode:sa\n%meta cpdef cpb romcode:sb\n%meta ioatt oa cp:cpa, type:output, index:0\n%meta ioatt oa cp:bm, type:output, index:0\n%meta ioatt ob cp:cpb, type:output, index:0\n%meta ioatt ob cp:bm, type:output, index:1\n",
 		"twoblocks.bmq":  "%meta bmdef global registersize:32\n\n%block pair .sequential\n        qbits   q0, q1\n        zero    q0, q1\n\th\tq0\n        cx      q0, q1\n%endblock\n\n%block triple .sequential\n        qbits   q0, q1, q2\n        zero    q0, q1, q2\n\th\tq0\n        cx      q0, q1\n        cx      q1, q2\n%endblock\n\n%meta bmdef global main:pair\n",
+		"immaddr.basm":   "%meta bmdef global registersize:8\n%section code .romtext iomode:async\n\tentry _start\n_start:\n\tmov r0, rom:2\n\tmov r1, ram:1\n\tmov r2, i0\n\tadd r0, r2\n\tmov o0, r0\n\tj _start\n%endsection\n%meta cpdef cpu romcode: code, ramsize:8\n%meta ioatt li cp:cpu, index:0, type:input\n%meta ioatt li cp:bm, index:0, type:input\n%meta ioatt lo cp:cpu, index:0, type:output\n%meta ioatt lo cp:bm, index:0, type:output\n",
 		"multidata.basm": "%meta bmdef global registersize:8\n%section codea .romtext iomode:async\n\tentry _start\n_start:\n\tmov r0, rom:a1\n\tmov r1, rom:a2\n\tr2o r0, o0\n\tj _start\n%endsection\n%section dataa .romdata\n\ta0 db 0x01, 0x02\n\ta1 db 0x03\n\ta2 db 0x04, 0x05, 0x06\n%endsection\n%section codeb .romtext iomode:async\n\tentry _start\n_start:\n\tmov r1, rom:b1\n\tr2o r1, o0\n\tj _start\n%endsection\n%section datab .romdata\n\tb0 db 0x0a, 0x0b, 0x0c\n\tb1 db 0x0d\n%endsection\n%section codec .romtext iomode:async\n\tentry _start\n_start:\n\tmov r2, rom:c0\n\tr2o r2, o0\n\tj _start\n%endsection\n%section datac .romdata\n\tc0 db 0x11\n%endsection\n%meta cpdef cpa romcode:codea, romdata:dataa\n%meta cpdef cpb romcode:codeb, romdata:datab\n%meta cpdef cpc romcode:codec, romdata:datac\n%meta ioatt oa cp:cpa, type:output, index:0\n%meta ioatt oa cp:bm, type:output, index:0\n%meta ioatt ob cp:cpb, type:output, index:0\n%meta ioatt ob cp:bm, type:output, index:1\n%meta ioatt oc cp:cpc, type:output, index:0\n%meta ioatt oc cp:bm, type:output, index:2\n",
 		"helper.basm":    "%meta bmdef global registersize:8\n%meta cpdef cpa romcode:mul\n%meta cpdef cpb romcode:plain\n\n%section mul .romtext\n\tentry _start\n_start:\n\trset r0, 3\n\trset r1, 5\n\tmultp r0, r1\n\taddp r0, r1\n\tj _start\n%endsection\n\n%section plain .romtext\n\tentry _start\n_start:\n\trset r0, 3\n\tmultp r0, r0\n\tinc r0\n\tj _start\n%endsection\n",
 		"t.go":           "package main\n\nimport (\n\t\"bondgo\"\n)\n\nfunc main() {\n\tvar out0 bondgo.Output\n\tvar a uint8\n\tvar b uint8\n\tout0 = bondgo.Make(bondgo.Output, 3)\n\ta = 1\n\tb = 2\n\ta = a + b\n\tbondgo.IOWrite(out0, a)\n}\n",
@@ -403,6 +404,7 @@ func main() {
 		{Name: "basm:templated-fragment", Tool: "basm", Args: []string{"-o", "out.json", "tfrag.basm"}, Inputs: []string{"tfrag.basm"}, Outputs: []string{"out.json"}},
 		{Name: "basm:chooser-with-explicit-rsets-elsewhere", Tool: "basm", Args: []string{"-chooser-min-word-size", "-o", "out.json", "chooser1.basm"}, Inputs: []string{"chooser1.basm"}, Outputs: []string{"out.json"}},
 		{Name: "basm:chooser-tie-on-word-size", Tool: "basm", Args: []string{"-chooser-min-word-size", "-o", "out.json", "chooser2.basm"}, Inputs: []string{"chooser2.basm"}, Outputs: []string{"out.json"}},
+		{Name: "basm:immediate-rom-and-ram-addresses", Tool: "basm", Args: []string{"-o", "out.json", "immaddr.basm"}, Inputs: []string{"immaddr.basm"}, Outputs: []string{"out.json"}},
 		{Name: "basm:several-data-sections", Tool: "basm", Args: []string{"-o", "out.json", "multidata.basm"}, Inputs: []string{"multidata.basm"}, Outputs: []string{"out.json"}},
 		{Name: "basm:helper-module-opcodes", Tool: "basm", Args: []string{"-o", "out.json", "helper.basm"}, Inputs: []string{"helper.basm"}, Outputs: []string{"out.json"}},
 		{Name: "neuralbond:testsmall", Tool: "neuralbond", Args: []string{"-net-file", "net-testsmall.json", "-config-file", "cfg.json", "-neuron-lib-path", "/repo/library/neurons", "-save-basm", "nn.basm"}, Inputs: []string{"net-testsmall.json", "cfg.json"}, Outputs: []string{"nn.basm", "cfg.json"}},
